@@ -25,6 +25,7 @@ import (
 	"github.com/emmansun/gmsm/sm9"
 	"github.com/emmansun/gmsm/smx509"
 
+	"verif/harness/model/sm2m"
 	"verif/harness/sim"
 )
 
@@ -44,7 +45,9 @@ const c13RunBudgetUS = 40000
 // slice indices modulo the slice count of the actual artefact.
 func (t *c13Type) dim(v int) [3]int {
 	if d, ok := c13Dims[t.name]; ok && v >= 0 && v < len(d) {
-		return d[v]
+		x := d[v]
+		x[1] = x[1] * 10 / 3 // the table counts the first block of element lies (30 variants); there are 100 by now
+		return x
 	}
 	return [3]int{256, 300, 300}
 }
@@ -96,6 +99,47 @@ var (
 	c13WrongPW = []byte("battery staple")
 )
 
+// c13SM2SigByz: signatures a hostile signer derives from the very digest the verifier will use - well-formed DER,
+// values in algebraic relation to it: R = [s]G (the recovered key is the point at infinity), r+s = n, r = e
+// (x(R) = 0), r-e just below / above the second candidate abscissa, and the range ends of r and s.
+func c13SM2SigByz(hash []byte, v int) []c13Byz {
+	n := sm2m.N
+	e := new(big.Int).SetBytes(hash)
+	var out []c13Byz
+	add := func(desc string, r, s *big.Int) {
+		out = append(out, c13Byz{desc, sm2m.MarshalDERSig(r, s)})
+	}
+	for i, s := range []*big.Int{big.NewInt(1), big.NewInt(2), new(big.Int).SetBytes(scalarFrom([]byte{byte(v)}, "c13 byz s")), new(big.Int).Sub(n, big.NewInt(1))} {
+		pt := sm2m.ScalarBaseMult(s)
+		r := new(big.Int).Add(pt.X, e)
+		r.Mod(r, n)
+		if r.Sign() != 0 {
+			add(fmt.Sprintf("signature with R = [s]G (#%d): the recovered key is the point at infinity", i), r, s)
+		}
+	}
+	r0 := new(big.Int).SetBytes(scalarFrom([]byte{byte(v)}, "c13 byz r"))
+	add("signature with r+s = n", r0, new(big.Int).Sub(n, r0))
+	if re := new(big.Int).Mod(e, n); re.Sign() != 0 {
+		add("signature with r = e mod n (x(R) = 0)", re, r0)
+	}
+	// r - e + n just below p / exactly p-n .. : the second candidate abscissa of the recovery
+	pn := new(big.Int).Sub(sm2m.P, n)
+	for d := int64(-1); d <= 1; d++ {
+		r := new(big.Int).Add(pn, big.NewInt(d))
+		r.Add(r, e)
+		r.Mod(r, n)
+		if r.Sign() != 0 {
+			add(fmt.Sprintf("signature with r-e = p-n%+d", d), r, r0)
+		}
+	}
+	one, nm1 := big.NewInt(1), new(big.Int).Sub(n, big.NewInt(1))
+	max := new(big.Int).Sub(new(big.Int).Lsh(one, 256), one)
+	for _, x := range [][2]*big.Int{{new(big.Int), one}, {one, new(big.Int)}, {n, one}, {one, n}, {nm1, nm1}, {max, one}, {one, max}, {one, one}, {nm1, one}} {
+		add(fmt.Sprintf("signature with (r, s) = (%x.., %x..)", trunc(x[0].Bytes(), 4), trunc(x[1].Bytes(), 4)), x[0], x[1])
+	}
+	return out
+}
+
 func init() {
 	// ------------------------------------------------------------------ SM2
 	c13Register(&c13Type{name: "sm2-signature", variants: 2, build: func(w *c13World, v int) (*c13Art, error) {
@@ -113,7 +157,7 @@ func init() {
 			return nil, err
 		}
 		pub := &priv.PublicKey
-		return &c13Art{data: sig, cons: []c13Cons{
+		return &c13Art{data: sig, byz: c13SM2SigByz(hash[:], v), cons: []c13Cons{
 			c13B("sm2.VerifyASN1", v == 0, func(in []byte) bool { return sm2.VerifyASN1(pub, hash[:], in) }),
 			c13B("sm2.VerifyASN1WithSM2", v == 1, func(in []byte) bool { return sm2.VerifyASN1WithSM2(pub, nil, msg, in) }),
 			c13C("sm2.RecoverPublicKeysFromSM2Signature", v == 0, func(in []byte) error { _, err := sm2.RecoverPublicKeysFromSM2Signature(hash[:], in); return err }),
